@@ -7,16 +7,15 @@ use std::rc::Rc;
 use dfir_pipes::pull::{self, FusedPull, Pull, PullStep};
 use dfir_pipes::{Either, EitherOrBoth, No, Yes};
 use futures::Stream as _;
-use vcommon::Reporter;
 
-use crate::drive::{Case, Code, Enc, Kind, Opts, Step, Trace, codes, drive, drive_future, judge};
+use crate::drive::{Case, Code, Enc, Kind, Opts, Out as Reporter, Step, Trace, codes, drive, drive_future, judge};
 use crate::script::{CheckPush, CheckSink, Ev, GateFuture, GateStream, POISON, ScriptPull, ScriptStream, Shared, items_of};
 
 // ---------------------------------------------------------------------------------------------
 // Does the concrete type implement FusedPull? (autoref specialisation; only usable on concrete types,
 // i.e. inside the macros below.)
 
-pub struct Wrap<'a, T>(pub &'a T);
+pub struct Wrap<'a, T>(#[allow(dead_code)] pub &'a T);
 pub trait ViaFused {
     fn is_fused_pull(&self) -> bool {
         true
@@ -64,7 +63,6 @@ pub const MASKS: &[i64] = &[0, 1, 2, 3, 4, 5, 6, 7];
 pub const COUNTS: &[i64] = &[0, 1, 2, 3, 4, 5];
 const P0: &[i64] = &[0];
 const K_UN: &[[u8; 2]] = &[[1, 0], [0, 0], [2, 0]];
-const K_UN_F: &[[u8; 2]] = &[[1, 0]];
 const K_BIN: &[[u8; 2]] = &[[1, 1], [0, 0], [1, 0], [0, 1], [2, 2], [2, 1], [1, 2], [0, 2], [2, 0]];
 const K_BIN_FIRST_FUSED: &[[u8; 2]] = &[[1, 1], [1, 0], [2, 2], [2, 1], [1, 2], [2, 0]];
 const K_BIN_FF: &[[u8; 2]] = &[[1, 1], [2, 2], [2, 1], [1, 2]];
